@@ -156,6 +156,10 @@ pub fn formats(req: &Value, w: &mut dyn std::io::Write) -> u64 {
     if tail > 0 {
         img.fill(size, tail.min(1 << 16), 0xA5);
     }
+    // a storage that was in use before: formatting must not rely on finding zeros
+    if let Some(pf) = req.get("prefill").and_then(Value::as_u64) {
+        img.fill(0, size.min(48 << 20), pf as u8);
+    }
     let mut dev = SimDevice::new(img);
     {
         let mut d = dev.0.borrow_mut();
